@@ -189,12 +189,70 @@ fn check_case(s: u64, drv: &mut Drv, rep: &mut Report, params: &(u64, u64, u64))
         rep.model_requests += 1;
         if valid != "true" {
             rep.fail("oracle", "c07:selected-compaction-inputs-invalid", &format!("the inputs pick_compaction selected for level {l} (level files {a:?}, next-level files {b:?}) do not satisfy the input clauses of the model's validCompaction (answer: {valid})"), &case);
+            return;
+        }
+    }
+    // the whole pick_compaction with a recorded seek compaction: a file of a level that has a next
+    // level (what the seek-charging theorems guarantee of file_to_compact)
+    let candidates: Vec<(usize, u64)> = levels.iter().enumerate().take(6).flat_map(|(l, fs)| fs.iter().map(move |f| (l, f.number))).collect();
+    if candidates.is_empty() || rng.chance(1, 4) {
+        return;
+    }
+    let seek = *rng.pick(&candidates);
+    let case = format!("{case} seek={}/{}", seek.0, seek.1);
+    raindb::verif::set_level_one_max_bytes(level_one_override);
+    let real = std::panic::catch_unwind(std::panic::AssertUnwindSafe(|| raindb::verif::pick_compaction_probe_with_seek(&opts, &levels, &pointers, Some(seek))));
+    raindb::verif::set_level_one_max_bytes(0);
+    let model_any = drv.ask(&format!("score.pickany {l0_trigger} {level_one} {scored} {max_file_size} {ptok} {ltok} {stok} {}/{}", seek.0, seek.1));
+    rep.model_requests += 1;
+    let picked_any = match real {
+        Err(_) => {
+            rep.fail("oracle", "c09:pick-compaction-panics", &format!("pick_compaction panicked on a well-formed version whose recorded seek compaction is file {} of level {} (the model answers [{model_any}]): the compaction thread dies", seek.1, seek.0), &case);
+            return;
+        }
+        Ok(Err(_)) => return,
+        Ok(Ok(r)) => r,
+    };
+    let real_any = match &picked_any {
+        None => "none".to_string(),
+        Some((l, a, b)) => format!("picked {l} {} {}", nums(&sorted(a.clone())), nums(&sorted(b.clone()))),
+    };
+    let model_any_norm = {
+        let t: Vec<&str> = model_any.split(' ').collect();
+        if t.len() == 4 && t[0] == "picked" {
+            let p = |s: &str| -> Vec<u64> { if s == "_" { vec![] } else { s.split(',').filter_map(|x| x.parse().ok()).collect() } };
+            format!("picked {} {} {}", t[1], nums(&sorted(p(t[2]))), nums(&sorted(p(t[3]))))
+        } else {
+            model_any.clone()
+        }
+    };
+    rep.count(if needs { "score.seek.displaced-by-size-compaction" } else { "score.seek.branch-taken" });
+    if !needs {
+        rep.count(&format!("score.seek.level.{}", seek.0));
+    }
+    if model_any_norm != real_any {
+        rep.drift.push(format!("pick_compaction with a recorded seek compaction differs: implementation [{real_any}], model [{model_any_norm}] :: {case}"));
+        rep.count("model_drift");
+        return;
+    }
+    match &picked_any {
+        None => rep.fail("oracle", "c09:recorded-seek-compaction-not-picked", &format!("file {} of level {} is recorded for a seek compaction but pick_compaction picked nothing: the work stays pending and is never scheduled away", seek.1, seek.0), &case),
+        Some((l, a, b)) => {
+            if !needs && (*l != seek.0 || !a.contains(&seek.1)) {
+                rep.fail("oracle", "c07:seek-compaction-without-its-file", &format!("the seek compaction of file {} (level {}) was picked as level {l} with level files {a:?}", seek.1, seek.0), &case);
+                return;
+            }
+            let valid = drv.ask(&format!("pick.valid {ltok} {l} {} {}", nums(a), nums(b)));
+            rep.model_requests += 1;
+            if valid != "true" {
+                rep.fail("oracle", "c07:selected-compaction-inputs-invalid", &format!("the inputs pick_compaction selected for the seek compaction of file {} at level {l} (level files {a:?}, next-level files {b:?}) do not satisfy the input clauses of the model's validCompaction (answer: {valid})", seek.1), &case);
+            }
         }
     }
 }
 
 pub fn rule() -> &'static str {
-    "the real Version::finalize + VersionSet::pick_compaction on synthetic versions over all seven levels (0-17 overlapping level-0 files; deeper levels of 0-7 sorted files whose total size is k/64 of the level's limit for k in {0,1,20,63,64,65,100,128,640,6400} or one byte below / at / above the limit - the last level included; the level-1 limit is the built-in 10 MiB or 1 / 1000 / 4096 bytes through the instrumentation hook; compaction pointers absent, equal to a file's largest or smallest key, one sequence number off, or arbitrary) against the Lean model with the parameters regenerated from the sources; a panic of pick_compaction, a compaction without inputs or of the last level, and inputs violating validInputs are oracle failures. Non-trivial = at least two files; distinct by generator seed."
+    "the real Version::finalize + VersionSet::pick_compaction on synthetic versions over all seven levels (0-17 overlapping level-0 files; deeper levels of 0-7 sorted files whose total size is k/64 of the level's limit for k in {0,1,20,63,64,65,100,128,640,6400} or one byte below / at / above the limit - the last level included; the level-1 limit is the built-in 10 MiB or 1 / 1000 / 4096 bytes through the instrumentation hook; compaction pointers absent, equal to a file's largest or smallest key, one sequence number off, or arbitrary) against the Lean model with the parameters regenerated from the sources; a panic of pick_compaction, a compaction without inputs or of the last level, and inputs violating validInputs are oracle failures; in three cases out of four the whole pick_compaction is run again with a recorded seek compaction (a random file of a level 0-5 as file_to_compact) against the model's pickAny: the size compaction must win when one is needed, otherwise the recorded file's compaction is picked, with valid inputs. Non-trivial = at least two files; distinct by generator seed."
 }
 
 pub fn run(tier: &str, seed: u64, replay: Option<&str>, drv_path: &str) -> Report {
